@@ -1591,7 +1591,7 @@ fn generic_systems(thorough: bool) -> Vec<GenSys> {
     let k = |name: &'static str, db: bool, eps: f64| KSpec { name, db, compose: None, eps };
     let eps_env: Option<f64> = std::env::var("KERN_EPS").ok().and_then(|s| s.parse().ok());
     // one operator: the draw tree of a loop is a caterpillar, 1e-11 costs a few hundred nodes; more operators: heavy tails
-    let eps_for = |l: usize| eps_env.unwrap_or(if l >= 1 { 1e-11 } else { 1e-3 });
+    let eps_for = |l: usize| eps_env.unwrap_or(if l == 1 { 1e-11 } else { 1e-3 });
     // (1) exchange-type 2-site matrix with loop updates
     for l in if thorough { vec![1usize, 2, 3] } else { vec![1usize, 2] } {
         v.push(GenSys {
